@@ -27,7 +27,7 @@ ASSUMPTIONS = ["no independent oracle needed; equivalence of rewrites re-checked
 TECHNIQUE = "metamorphic property-based testing (presentation-changing, meaning-preserving transformations)"
 
 CFGS = ["p", "z", "w-rc2", "w-z3", "lex-rc2", "lex-z3", "c"]
-TRANSFORMS = ["rekey:zero", "rekey:sparse", "rekey:permuted", "reorder", "reorder:specific-first", "rename", "rename:internal",
+TRANSFORMS = ["rekey:zero", "rekey:sparse", "rekey:gap", "rekey:permuted", "reorder", "reorder:specific-first", "rename", "rename:internal",
               "signature", "equiv:base", "equiv:query", "condrewrite"]
 INTERNAL = ["eta_1", "eta_2", "mv_0", "mf_1", "mv_1", "gamma-_1", "eta_3"]
 
@@ -177,6 +177,9 @@ def apply_transform(t, atoms, base, queries, rnd):
         keys = [k for k, _, _ in base]
         if t == "rekey:zero":
             new = list(range(len(keys)))
+        elif t == "rekey:gap":
+            skip = rnd.randint(1, len(keys))        # 1..n+1 without one value: contains n+1 unless skip == n+1
+            new = [k for k in range(1, len(keys) + 2) if k != skip]
         elif t == "rekey:sparse":
             new = sorted(rnd.sample(range(2, 5000), len(keys)))
             if rnd.random() < 0.3:
